@@ -2,6 +2,7 @@ package main
 
 import (
 	"fmt"
+	"go/types"
 	"os"
 	"path/filepath"
 	"strings"
@@ -121,4 +122,36 @@ func newEngine(l *loaded) *interp.Engine {
 func fatal(f string, a ...interface{}) {
 	fmt.Fprintf(os.Stderr, "gosym: "+f+"\n", a...)
 	os.Exit(2)
+}
+
+// hasFunc reports whether a function with this ssa name ("(*pkg.T).m" or "pkg.f") exists
+// in the loaded program (looked up through go/types only).
+func (l *loaded) hasFunc(name string) bool {
+	if strings.HasPrefix(name, "(*") {
+		// (*pkg/path.T).m
+		end := strings.Index(name, ").")
+		if end < 0 {
+			return false
+		}
+		qual, meth := name[2:end], name[end+2:]
+		i := strings.LastIndex(qual, ".")
+		p := l.pkgs[qual[:i]]
+		if p == nil {
+			return false
+		}
+		obj := p.Pkg.Scope().Lookup(qual[i+1:])
+		if obj == nil {
+			return false
+		}
+		ms := types.NewMethodSet(types.NewPointer(obj.Type()))
+		for k := 0; k < ms.Len(); k++ {
+			if ms.At(k).Obj().Name() == meth {
+				return true
+			}
+		}
+		return false
+	}
+	i := strings.LastIndex(name, ".")
+	p := l.pkgs[name[:i]]
+	return p != nil && p.Func(name[i+1:]) != nil
 }
